@@ -3,7 +3,7 @@ import copy
 
 import numpy as np
 
-from .. import cards, run
+from .. import cards, env, run
 
 PROP = "C14"
 LEVEL = "exploration"
@@ -81,6 +81,8 @@ def cases(tier, rng):
                 extra_pts[1].update(x=extra_pts[0]["x"], y=extra_pts[0]["y"])
         hist = []
         for hk in HKINDS:
+            if hk == "keyorder" and tier == "quick" and i % 3:
+                continue  # quick tier: the cases that carry value-permuted points (every third) get the key-order history
             h = dict(kind=hk, perm_obs=[int(k) for k in rng.permutation(len(names))], perm_pts=[int(k) for k in rng.permutation(len(pts))],
                      abort_at=int(rng.integers(1, 40)), dup=int(rng.integers(len(pts))), sub=(int(rng.integers(len(names))), int(rng.integers(len(pts)))))  # fmt: skip
             hist.append(h)
@@ -274,7 +276,7 @@ def run_case(case):
             elif hk == "keyorder":
                 # every second point (and, in a second run, the others) spelt with its keys in the opposite order, duplicates of the
                 # first two points in the other spelling appended: a mapping is the same point however its keys are listed
-                for odd in (1, 0):
+                for odd in ((1, 0) if env.tier() == "thorough" else (h["dup"] % 2,)):  # quick tier: one of the two spellings per case
                     pl = [*base_pts, dict(base_pts[0]), dict(base_pts[1])]
                     rev = {j for j in range(len(pl)) if (j % 2 == odd) != (j >= len(base_pts))}
                     judge(hk, yad.Runner(th, mkobs(request(names, pl, rev=rev))).get_result(), names, pl, before)
